@@ -428,7 +428,9 @@ fn gen(max: usize, with_anchors: bool) -> Gen {
 }
 
 /// `\A(?:e)\z` compiled by the regex crate itself: the documented meaning of "the whole line matches e"
+/// the expression has to be a regular expression by itself (`)(` is none, although `\A(?:)()\z` compiles)
 fn whole_line_oracle(expr: &str) -> Option<regex::bytes::Regex> {
+    regex::bytes::Regex::new(expr).ok()?;
     regex::bytes::Regex::new(&format!(r"\A(?:{})\z", expr)).ok()
 }
 
@@ -471,6 +473,11 @@ fn regex_eval(mk: &ExpectationMaker, text: &str, lines: &[Vec<u8>]) -> Result<Re
         fails.push(("C04:regex-cleanup-altered-plain-expression".to_string(), format!("{text:?} became {cleaned:?}")));
     }
     tags.push(format!("regex:cleanup-changed-text={}", cleaned != text));
+    // what is compiled has to be a regular expression by itself: inside the anchoring group unbalanced parentheses
+    // would otherwise change what is anchored (`a)|(b` as `^(?:a)|(b)$` matches every line that starts with a)
+    if regex::bytes::Regex::new(&cleaned).is_err() {
+        fails.push(("C04:regex-invalid-expression-accepted".to_string(), format!("`{text} (regex)` is accepted although {cleaned:?} is no regular expression")));
+    }
     let oracle = whole_line_oracle(&cleaned);
     let orig = if cleaned != text { whole_line_oracle(text) } else { None };
     if oracle.is_none() {
@@ -845,7 +852,7 @@ pub fn run(ctx: &Ctx, prop: &str) {
     // repetition quantifiers as the regex crate reads them: a{X} and ba{X}c for every X over {1 2 ,} up to length 3
     // ({1} {1,2} {1,} are quantifiers; {,1} {2,1} {,} are not valid there and say nothing)
     let qs = words(&['1', '2', ','], 3);
-    let angle_quant = ["<{1}", "a<{2}", "\\<{1}", "\\\\<{1}", "a{1}>"];
+    let angle_quant = ["<{1}", "a<{2}", "\\<{1}", "\\\\<{1}", "a{1}>", "a)|(b", ")(", "a)(b", "(a))|((b)"];
     ctx.run_stream("regex-quantifier-oracle-exhaustive", (qs.len() * 2 + angle_quant.len()) as u64, true, |idx| {
         if idx as usize >= qs.len() * 2 {
             // a literal `<` / `>` next to a quantifier: the placeholder of the restore pass collides with it (open finding)
